@@ -369,13 +369,13 @@ func init() {
 		Gen: func(g *Gen) *Call {
 			for {
 				hz, vz := g.zoom(1, 30), g.zoom(1, 30)
-				ids := g.mixedList(hz, vz, 1+g.R.Intn(8), 2)
+				ids := g.mixedList(hz, vz, g.n(8), 2)
 				th, tv := hz+g.R.Range(-4, 3), vz+g.R.Range(-4, 4)
 				th, tv = max64(0, min64(35, th)), max64(0, min64(35, tv))
 				if g.R.Chance(1, 4) && len(ids) > 1 {
 					ids = append(ids, ids[g.R.Intn(len(ids))])
 				}
-				if zoomChangeSize(ids, th, tv) <= 3000 {
+				if zoomChangeSize(ids, th, tv) <= g.cap(3000) {
 					return &Call{Op: "change_ext_zoom", IDs: ids, Ints: []int64{th, tv}}
 				}
 			}
@@ -387,12 +387,12 @@ func init() {
 		Gen: func(g *Gen) *Call {
 			for {
 				z := g.zoom(1, 28)
-				ext := g.cluster(z, z, 1+g.R.Intn(8))
+				ext := g.cluster(z, z, g.n(8))
 				if g.R.Chance(1, 3) {
-					ext = append(ext, g.cluster(z+1, z+1, 1+g.R.Intn(3))...)
+					ext = append(ext, g.cluster(z+1, z+1, g.n(3))...)
 				}
 				tz := max64(0, min64(35, z+g.R.Range(-4, 2)))
-				if zoomChangeSize(ext, tz, tz) <= 3000 {
+				if zoomChangeSize(ext, tz, tz) <= g.cap(3000) {
 					ids := make([]string, len(ext))
 					for i, e := range ext {
 						ids[i] = extToSp(e)
@@ -523,7 +523,7 @@ func init() {
 		Gen: func(g *Gen) *Call {
 			hz, vz := g.zoom(0, 35), g.zoom(0, 35)
 			h, v := g.R.Range(0, 2), g.R.Range(0, 2)
-			return &Call{Op: "nlayer", IDs: g.cluster(hz, vz, 1+g.R.Intn(6)), Ints: []int64{h, v}}
+			return &Call{Op: "nlayer", IDs: g.cluster(hz, vz, g.n(6)), Ints: []int64{h, v}}
 		},
 		Exec: func(c *Call, a *Args) Result { return strs(operated.GetNspatialIdsAroundVoxcels(a.IDs, i64(c, 0), i64(c, 1))) }})
 
@@ -532,7 +532,7 @@ func init() {
 	boolCanon := func(r *Result) []string { return []string{r.Aux, fmt.Sprint(r.Err != "")} }
 	genExtPairLists := func(g *Gen) ([]string, []string) {
 		hz, vz := g.zoom(1, 30), g.zoom(1, 30)
-		l1 := g.mixedList(hz, vz, 1+g.R.Intn(5), 3)
+		l1 := g.mixedList(hz, vz, g.n(5), 3)
 		var l2 []string
 		if g.R.Chance(1, 2) {
 			// related to l1: ancestors / descendants / neighbours of its members
@@ -546,7 +546,7 @@ func init() {
 				l2 = append(l2, extID(a[0]-dh, x, y, a[3]-dv, z))
 			}
 		} else {
-			l2 = g.mixedList(hz, vz, 1+g.R.Intn(5), 3)
+			l2 = g.mixedList(hz, vz, g.n(5), 3)
 		}
 		return l1, l2
 	}
@@ -561,6 +561,9 @@ func init() {
 	reg(&OpSpec{Name: "overlap_ext_arr", SetOp: true, Canon: boolCanon, Lists: []string{"ids", "ids2"},
 		Gen: func(g *Gen) *Call {
 			l1, l2 := genExtPairLists(g)
+			if g.R.Chance(1, 8) {
+				l2 = append([]string{}, l1...) // the same list on both sides
+			}
 			return &Call{Op: "overlap_ext_arr", IDs: l1, IDs2: l2}
 		},
 		Exec: func(c *Call, a *Args) Result {
@@ -607,6 +610,9 @@ func init() {
 	reg(&OpSpec{Name: "overlap_sp_arr", SetOp: true, Canon: boolCanon, Lists: []string{"ids", "ids2"},
 		Gen: func(g *Gen) *Call {
 			a, b := genSpLists(g)
+			if g.R.Chance(1, 8) {
+				b = append([]string{}, a...)
+			}
 			return &Call{Op: "overlap_sp_arr", IDs: a, IDs2: b}
 		},
 		Exec: func(c *Call, a *Args) Result { return boolRes(detector.CheckSpatialIdsArrayOverlap(a.IDs, a.IDs2)) }})
@@ -620,9 +626,9 @@ func init() {
 			}
 			var ids []string
 			if sp {
-				ids = g.cluster(hz, hz, 1+g.R.Intn(6))
+				ids = g.cluster(hz, hz, g.n(6))
 			} else {
-				ids = g.mixedList(hz, vz, 1+g.R.Intn(6), 2)
+				ids = g.mixedList(hz, vz, g.n(6), 2)
 			}
 			oh := max64(1, min64(31, hz+g.R.Range(-3, 2)))
 			ov := max64(0, min64(35, vz+g.R.Range(-3, 3)))
@@ -639,7 +645,7 @@ func init() {
 					bad = true
 				}
 			}
-			if bad || zoomChangeSize(ids, oh, ov) > 2000 {
+			if bad || zoomChangeSize(ids, oh, ov) > g.cap(2000) {
 				continue
 			}
 			c := &Call{Op: "ext_to_qv", IDs: ids, Ints: []int64{oh, ov}, Flts: []float64{maxH, minH}}
@@ -666,7 +672,7 @@ func init() {
 		Gen: func(g *Gen) *Call {
 			for {
 				hz, vz := g.zoom(1, 28), g.zoom(18, 30)
-				ids := g.mixedList(hz, vz, 1+g.R.Intn(6), 2)
+				ids := g.mixedList(hz, vz, g.n(6), 2)
 				oq := max64(1, min64(31, hz+g.R.Range(-3, 2)))
 				exp := g.R.Range(20, 28)
 				oa := exp + g.R.Range(-4, 2)
@@ -681,7 +687,7 @@ func init() {
 						bad = true
 					}
 				}
-				if bad || oa < 0 || oa > 35 || zoomChangeSize(ids, oq, 0) > 400 {
+				if bad || oa < 0 || oa > 35 || zoomChangeSize(ids, oq, 0) > g.cap(400) {
 					continue
 				}
 				return &Call{Op: "ext_to_qalt", IDs: ids, Ints: []int64{oq, oa, exp, off}}
@@ -732,7 +738,7 @@ func init() {
 				} else {
 					size *= float64(pow2(max64(0, ov-qvs[0].VZoom)))
 				}
-				if size > 3000 {
+				if size > float64(g.cap(3000)) {
 					continue
 				}
 				if op == "qv_to_sp" {
@@ -816,7 +822,7 @@ func init() {
 	reg(&OpSpec{Name: "sp_to_ext_list", SetOp: true, Weight: 4,
 		Gen: func(g *Gen) *Call {
 			z := g.zoom(0, 35)
-			ext := g.cluster(z, z, 1+g.R.Intn(6))
+			ext := g.cluster(z, z, g.n(6))
 			for i := range ext {
 				ext[i] = extToSp(ext[i])
 			}
@@ -826,7 +832,7 @@ func init() {
 	reg(&OpSpec{Name: "ext_to_sp_list", SetOp: true, Weight: 4,
 		Gen: func(g *Gen) *Call {
 			z := g.zoom(0, 35)
-			return &Call{Op: "ext_to_sp_list", IDs: g.cluster(z, z, 1+g.R.Intn(6))}
+			return &Call{Op: "ext_to_sp_list", IDs: g.cluster(z, z, g.n(6))}
 		},
 		Exec: func(c *Call, a *Args) Result { return strs(shape.ConvertExtendedSpatialIdsToSpatialIds(a.IDs)) }})
 
